@@ -337,7 +337,7 @@ pub fn run(ctx: &Ctx) -> Report {
     let mut rep = Report::default();
     rep.assumptions.insert(drop_privileges());
     let scratch = Scratch::new("c09");
-    let cases = ctx.share(ctx.scale(30_000, 600_000)) as u32;
+    let cases = ctx.share(ctx.scale(160_000, 1_600_000)) as u32;
     let rep_cell = std::cell::RefCell::new(&mut rep);
     let found = prop_search(ctx, 9, cases, 600, &gen_hist(), |h, exploring| {
         let r = judge(&scratch.path, h);
